@@ -2283,7 +2283,12 @@ class DiskObjectStore(PackBasedObjectStore):
             ):
                 pass
         except BaseException:
-            final_pack.close()
+            # A read that failed inside the mapped pack (zlib.error) leaves a
+            # view of the mapping alive in the traceback of the exception
+            # being handled, and closing the mapping then raises BufferError.
+            # That must not keep the rejected pack from being removed.
+            with suppress(BufferError):
+                final_pack.close()
             with suppress(FileNotFoundError):
                 os.remove(target_pack_path)
             with suppress(FileNotFoundError):
